@@ -10,6 +10,7 @@ open Exc Py
   frame := <file> <line> <func> <source> <hidden> <nvals> val*
   val   := <repr tok | !> <typename tok>
   val <maxLen> <repr tok | !> <typename tok>
+  fmtall <limit|n> <maxLen> <fromDec> <budget> <root> <nexc> exn*      (all eight modes)
 -/
 
 abbrev P := StateT (List String) Option
@@ -66,6 +67,20 @@ def showRes : Except Err (List Piece) → String
   | .ok ps => "ok " ++ " ".intercalate (ps.map showPiece)
   | .error e => "err " ++ toString e
 
+/-- `fmtall`: the eight backtrace × diagnose × colorize modes for one heap, answers joined by " | " -/
+def pAll : P (Heap × Option Int × Nat × Nat × Nat × Bool) := do
+  let kind ← tok
+  if kind ≠ "fmtall" then failure
+  let lt ← tok
+  let limit ← if lt = "n" then pure none else match lt.toInt? with | some k => pure (some k) | none => failure
+  let maxLen ← pNat; let fromDec ← pBool; let budget ← pNat; let root ← pNat
+  let n ← pNat; let heap ← pMany pExn n
+  pure (heap, limit, maxLen, budget, root, fromDec)
+
+def allModes : List (Bool × Bool × Bool) :=
+  [(false, false, false), (false, false, true), (false, true, false), (false, true, true),
+   (true, false, false), (true, false, true), (true, true, false), (true, true, true)]
+
 def pCase : P (Bool × Heap × Opts × Nat × Nat × Bool) := do
   let kind ← tok
   let std ← if kind = "fmt" then pure false else if kind = "std" then pure true else failure
@@ -86,6 +101,12 @@ def step (line : String) : String :=
         | some s => "ok " ++ encTok (formatValue ml { repr := .ok s, typeName := ty })
         | none => "bad-op"
     | _, _ => "bad-op"
+  | "fmtall" :: rest =>
+    match pAll.run ("fmtall" :: rest) with
+    | some ((heap, limit, maxLen, budget, root, fromDec), []) =>
+      " | ".intercalate (allModes.map fun (bt, dg, co) =>
+        showRes (formatException heap { backtrace := bt, diagnose := dg, colorize := co, limit, maxLen } budget root fromDec))
+    | _ => "bad-op"
   | toks =>
     match pCase.run toks with
     | some ((std, heap, o, budget, root, fromDec), []) =>
